@@ -544,7 +544,7 @@ func (c *eCorpus) idBorderRequests(r *rng.R, e *eExpr) {
 	lo, hi := c.midRange()
 	for b := eIdsBlock; b-4 < n+1; b += eIdsBlock {
 		var ids [][2]uint64
-		for rank := b - 4; rank <= b+2; rank++ { // LIDs b-3 .. b+3
+		for rank := b - 7; rank <= b+5; rank++ { // LIDs b-6 .. b+6
 			if rank < 0 || rank >= n {
 				continue
 			}
@@ -778,6 +778,15 @@ func eGenIds4k(r *rng.R, k, off int) *eCorpus {
 			t = append(t, fmt.Sprintf("g:g%d", i%6))
 		}
 		c.add(eBaseMID+(uint64(i)+sh)/div, eRid(i), `{"i":`+fmt.Sprint(i)+`,"p":"`+strings.Repeat("x", int(eRid(i)%57))+`"}`, t...)
+	}
+	// fat: the 11 documents around every ID-block border share one MID (document i has rank n-1-i, LID n-i;
+	// MIDs stay monotone in i), so the block's min ID and its neighbours differ by RID only
+	fat := r.Bool()
+	c.params["fat_border"] = fat
+	for ic := n - eIdsBlock; fat && ic > 0; ic -= eIdsBlock {
+		for i := max(0, ic-5); i <= min(n-1, ic+5); i++ {
+			c.docs[i].mid = c.docs[min(n-1, ic+5)].mid
+		}
 	}
 	c.finish()
 	c.idBorderRequests(r, eAll())
